@@ -253,6 +253,8 @@ class ExecBase:
         if src in CLASS_ALIASES:
             return [CLASS_ALIASES[src]]
         last = src.split(".")[-1]
+        if src in ("int", "bool", "object"):
+            return [src]                  # value-sort classes, handled by isinstance_term (bool is a subclass of int)
         if last in CLASS_PARENT or last in VIRTUAL:
             return [last]
         if last in CLASS_ALIASES:
